@@ -1,17 +1,17 @@
 CONSTANTS
  MaxLen = 2
- ReadSizes = {1, 2, 5}
+ ReadSizes = {5}
  MaxDrops = 1
  MaxFails = 1
- MaxSeeks = 1
+ MaxSeeks = 0
  MaxAgain = 1
  RetryLimit = 3
  Schemes = {"reg", "ocidir"}
- Vias = {"reader", "tarraw", "tarwalk"}
+ Vias = {"tarraw", "tarwalk"}
  Withs = {TRUE, FALSE}
  Chunks = {1, 5}
- LyingSizes = TRUE
- InlineData = TRUE
+ LyingSizes = FALSE
+ InlineData = FALSE
 INIT Init
 NEXT Next
 VIEW View
